@@ -87,8 +87,11 @@ func genOp(g G, u universe, m *mTracker, uniq *int, choose func(int) int) tOp {
 	case 18:
 		return tOp{"Dissociate", []string{ch(), nick()}}
 	default:
-		if choose(4) == 0 {
+		switch choose(4) {
+		case 0:
 			return tOp{"Wipe", nil}
+		case 1:
+			return tOp{"String", nil}
 		}
 		return tOp{"Me", nil}
 	}
